@@ -52,7 +52,7 @@ impl RouteSimilarityFunction {
     /// true if the ranking meets the similarity criteria
     pub fn is_similar(&self, similarity: f64) -> bool {
         match self {
-            RouteSimilarityFunction::AcceptAll => true,
+            RouteSimilarityFunction::AcceptAll => false,
             RouteSimilarityFunction::EdgeIdCosineSimilarity { threshold } => {
                 similarity >= *threshold
             }
